@@ -1,5 +1,6 @@
 import TypedpyModel.Lemmas.LiftStruct
 import TypedpyModel.Lemmas.LiftIdSeq
+import TypedpyModel.Lemmas.LiftSetMap
 namespace Typedpy
 open PyVal (pyEq pyMem pyNodup)
 
@@ -48,6 +49,15 @@ theorem okEq_unfold (O : Oracles) (opts : DeserOpts) (f : FieldDecl) (x : PyVal)
     unfold deserThen at hd
     rcases bindE_eq_ok hd with ⟨y, hy, hvy⟩
     exact ⟨y, hy, hvy⟩
+
+theorem strictJsonPairs_mem : ∀ (kvs : List (PyVal × PyVal)), strictJsonPairs kvs = true →
+    ∀ kv ∈ kvs, strictJson kv.2 = true
+  | [], _, kv, hkv => by simp at hkv
+  | (k, v) :: rest, h, kv, hkv => by
+    simp only [strictJsonPairs, Bool.and_eq_true] at h
+    rcases List.mem_cons.mp hkv with rfl | hkv'
+    · exact h.1.2
+    · exact strictJsonPairs_mem rest h.2 kv hkv'
 
 theorem lookup_mem' {α} (n : String) (v : α) : ∀ (l : List (String × α)), lookup n l = some v → (n, v) ∈ l
   | [], h => by simp [lookup] at h
@@ -212,7 +222,8 @@ theorem okEq_field (O : Oracles) (opts : DeserOpts) : ∀ (f : FieldDecl) (d : P
     have hnd' : (fields.map (·.1)).Nodup := by simpa using hnd
     cases d with
     | dict kvs =>
-      have hj' : strictJsonPairs kvs = true := by simpa [strictJson] using hj
+      have hj' : strictJsonPairs kvs = true := by
+        have := hj; simp only [strictJson, Bool.and_eq_true] at this; exact this.2
       rcases strict_kwOfDict kvs hj' with ⟨doc, hdoc, hall⟩
       have H := fields_equiv O opts c defaults doc hall fields hef hnd'
         (deserExtras opts c (fields.map (·.1)) doc) (deserExtras opts c (fields.map (·.1)) doc)
@@ -274,9 +285,29 @@ theorem okEq_field (O : Oracles) (opts : DeserOpts) : ∀ (f : FieldDecl) (d : P
           simp [deserThen, liftThen, deser, lift, dClassRef, bindE, PyVal.isNone, hinl'] at hz)
   | .seqAny _ _, _, hex, _ => by simp [exactDecl] at hex
   | .setAny _ _, _, hex, _ => by simp [exactDecl] at hex
-  | .setOf _ _ _, _, hex, _ => by simp [exactDecl] at hex
+  | .setOf imm f sz, d, hex, hj => by
+    simp only [exactDecl] at hex
+    cases d with
+    | list xs => exact set_str_okEq O opts imm sz f hex xs
+    | _ =>
+      first
+      | (simp [strictJson] at hj; done)
+      | (apply OkEq.errors <;> intro z hz <;>
+          simp [deserThen, liftThen, deser, lift, dSeq, docSeq, listDoc, bindE, PyVal.isNone] at hz)
   | .mapAny _, _, hex, _ => by simp [exactDecl] at hex
-  | .mapOf _ _ _, _, hex, _ => by simp [exactDecl] at hex
+  | .mapOf kf vf sz, d, hex, hj => by
+    simp only [exactDecl, Bool.and_eq_true] at hex
+    cases d with
+    | dict kvs =>
+      have hj2 := hj
+      simp only [strictJson, Bool.and_eq_true] at hj2
+      exact map_str_okEq O opts kf vf sz hex.1 kvs hj2.1 (fun kv hkv =>
+        okEq_field O { opts with keepUndefined := true } vf kv.2 hex.2 (strictJsonPairs_mem kvs hj2.2 kv hkv))
+    | _ =>
+      first
+      | (simp [strictJson] at hj; done)
+      | (apply OkEq.errors <;> intro z hz <;>
+          simp [deserThen, liftThen, deser, lift, dMap, bindE, PyVal.isNone] at hz)
   | .anyOf _, _, hex, _ => by simp [exactDecl] at hex
   | .oneOf _, _, hex, _ => by simp [exactDecl] at hex
   | .allOf _, _, hex, _ => by simp [exactDecl] at hex
